@@ -2,6 +2,7 @@ import Poly.Util.Proto
 import Poly.Model.VBFT
 import Poly.Model.Sig
 import Poly.Model.VBFTCount
+import Poly.Model.SigAddr
 /- Driver for the node-layer families. `drv_node <family>` reads op lines on stdin.
 
    family vbftsel (C40):
@@ -9,6 +10,7 @@ import Poly.Model.VBFTCount
    peers <seed> <N> <C> <start> <end> <proposers> <table>    -> <list> | panic
    build <blkNum> <N> <C> <seed> <table> <block fields...>   -> ok p=<list> e=<list> c=<list> | err:<class> | panic
    genesis <height> <idx:id,...>                             -> N=<n> C=<c> table=<list>
+   peerscfg <view> <idx:pubkey:status,...>                   -> <idx:pubkey,...> sorted by index (GetPeersConfig as a set)
    (lists are comma separated, `-` = empty; seed = 128 hex digits)
 -/
 open Poly
@@ -68,6 +70,18 @@ def step (_ : Unit) (toks : List String) : Unit × String :=
       | .panic => ((), "panic")
       | .err cls => ((), "err:" ++ cls)
       | .ok cfg => ((), s!"ok p={showList cfg.proposers} e={showList cfg.endorsers} c={showList cfg.committers}")
+  | ["peerscfg", _view, pool] =>
+    let items : List PoolItem := (splitList pool).map fun t =>
+      match t.splitOn ":" with
+      | [i, pk, st] => ⟨Proto.natOf i, pk, Proto.natOf st⟩
+      | _ => ⟨0, "", 9⟩
+    let ps := peersConfig items
+    let sorted := ps.foldr (fun (a : Peer) acc =>
+      let rec ins (a : Peer) : List Peer → List Peer
+        | [] => [a]
+        | b :: r => if a.index < b.index || (a.index == b.index && a.id ≤ b.id) then a :: b :: r else b :: ins a r
+      ins a acc) []
+    ((), if sorted.isEmpty then "-" else ",".intercalate (sorted.map fun p => s!"{p.index}:{p.id}"))
   | ["genesis", height, peers] =>
     let ps := parsePeers peers
     let cc := genesisChainConfig (shuffleHash (Proto.natOf height)) ps
@@ -82,6 +96,9 @@ open Poly.Model.Sig
 /- family sigs (C39):
    tx <nonce> <entry> ...   -> ok signers=<sorted addresses> | reject
    vms <data> <entry>       -> ok | reject:not-enough | reject:invalid-sig | reject:multi-failed
+   prog <m> <ser:type:curve:x:y> ...   -> ok <program bytes> empty=0 | err empty=1   (EncodeMultiPubKeyProgramInto /
+                                          AddressFromMultiPubKeys answering the empty address)
+   bk <ser:type:curve:x:y> ...         -> empty=<0|1>                               (AddressFromBookkeepers)
    entry = M;pks;sigs;ADDR;WF;V — the model sees the number of keys and signatures, the address, the "decodes" bits
    and the verification matrix (all computed by the harness with the node's own libraries). -/
 
@@ -147,6 +164,21 @@ def step (_ : Unit) (toks : List String) : Unit × String :=
       | .ok addrs =>
         let l := sortStrings (dedup addrs)
         ((), "ok signers=" ++ (if l.isEmpty then "-" else ",".intercalate l))
+  | "prog" :: m :: keys =>
+    -- key token = ser:type:curve:x:y ; the model sorts by (type, curve, x, y) and encodes the program
+    let ks : List (List UInt8 × Poly.Model.SigAddr.Ord) := keys.map fun t =>
+      match t.splitOn ":" with
+      | [sr, ty, cv, x, y] => (Proto.bytesOf sr, (Proto.natOf ty, Proto.natOf cv, Proto.natOf x, Proto.natOf y))
+      | _ => ([], (0, 0, 0, 0))
+    match Poly.Model.SigAddr.encodeMulti (fun k => k.1) (fun k => k.2) ks (Proto.natOf m % 65536) with
+    | some p => ((), "ok " ++ Hex.showHex p ++ " empty=0")
+    | none => ((), "err empty=1")
+  | "bk" :: keys =>
+    let n := keys.length
+    if n == 1 then ((), "empty=0")
+    else
+      let m := n - (n - 1) / 3
+      ((), if 1 ≤ m % 65536 ∧ m % 65536 ≤ n ∧ 1 < n ∧ n ≤ 16 then "empty=0" else "empty=1")
   | ["vms", _data, entry] =>
     match parseEntry entry with
     | none => ((), "bad-op")
